@@ -344,11 +344,52 @@ def d1_metric_arg_order(ck):
     _d1_init(ck, mod, fn, fi, ps, loops_with_metric)
 
 
+_ALIASING = ('np.asarray(_C)', 'np.asarray(_C, dtype=_T)', 'np.asarray(_C, _T)', 'np.asanyarray(_C)',
+             'np.asanyarray(_C, dtype=_T)', 'np.ascontiguousarray(_C)', 'np.ascontiguousarray(_C, dtype=_T)',
+             'np.atleast_1d(_C)', '_C.astype(_T, copy=False)', '_C.ravel()', '_C.reshape(__)', '_C.view()',
+             'np.ravel(_C)', 'np.squeeze(_C)', '_C.squeeze()', '_C[:]', '_C[...]')
+
+
+def _alias_source(fi, v, depth=8):
+    """The expression whose OBJECT `v` may be: names with a single simple
+    definition are followed, wrappers that hand their argument back when it
+    already is a suitable ndarray (np.asarray & co, views) are stripped."""
+    while depth > 0:
+        depth -= 1
+        if isinstance(v, ast.Name):
+            r = fi.resolve(v, depth=1)
+            if r is v:
+                return v
+            v = r
+            continue
+        c = canon(v)
+        for pat in _ALIASING:
+            m = match(pat, c)
+            if m is not None:
+                break
+        else:
+            return v
+        # continue on the ORIGINAL node where possible (reaching definitions are keyed by node identity)
+        inner = None
+        if isinstance(v, ast.Call) and isinstance(v.func, ast.Attribute) and call_name(v) and call_name(v).startswith('np.') and v.args:
+            inner = v.args[0]
+        elif isinstance(v, ast.Call) and isinstance(v.func, ast.Attribute):
+            inner = v.func.value
+        elif isinstance(v, ast.Subscript):
+            inner = v.value
+        v = inner if inner is not None else m['_C']
+    return v
+
+
 def _d1_init(ck, mod, fn, fi, ps, loops):
-    """The running-minimum array (second component of the returned pair)
-    starts at +inf for every frame before the first sweep."""
+    """The array returned as second component (the distances) is a PRIVATE
+    array of this function, and a sweep that reads it while writing it (the
+    running minimum `dist < distances`) finds +inf in every entry when it
+    starts.  Sweeps are located by role: the outermost loops that store into
+    that array; the initial value is what reaches the head of such a loop."""
     rule = 'C10.D1.init'
     F = 'assign_to_nearest_center'
+    metric = ps[2]
     name = 'distances'
     for r in returns_of(fn):
         v = r.value
@@ -356,16 +397,32 @@ def _d1_init(ck, mod, fn, fi, ps, loops):
             name = v.elts[1].id
     want = 'running-minimum distances must start at +inf for every frame'
     construct = '%s starts at np.inf' % name
-    defs = [s for s in assigns_to(fn, name) if isinstance(s, ast.Assign) and
-            not any(_inside(s, l) for l in loops) and fi.def_value(s, name) is not None]
-    if len(defs) != 1:
-        ck.missing(rule, 'single allocation of the distance array `%s` before the sweeps' % name)
+    cfg = fi.cfg
+    fors = [l for l in walk_local(fn) if isinstance(l, ast.For)]
+    sweeps = [l for l in fors if subscript_stores(l, name) and not any(o is not l and _inside(l, o) for o in fors)]
+    for l in loops:
+        if not any(_inside(l, w) for w in sweeps):
+            ck.missing(rule, 'the sweep at %s calls the metric but does not store into the returned distance array `%s`' % (mod.loc(l), name))
+    if not sweeps:
+        ck.missing(rule, 'loops storing into the returned distance array `%s`' % name)
         return
-    d0 = defs[0]
-    if not all(fi.cfg.dominates(d0, l) for l in loops):
-        ck.missing(rule, 'allocation of `%s` does not dominate the sweeps' % name)
-        return
-    v = xp(fi, fi.def_value(d0, name))
+    by_site = {}
+    for l in sweeps:
+        ds = fi.rd.defs_at(l, name)
+        outer = [d for d in ds if d in ('PARAM', 'UNBOUND') or not any(_inside(d, w) for w in fors)]
+        if len(outer) != len(ds) or any(d in ('PARAM', 'UNBOUND') or not isinstance(d, ast.Assign) or
+                                        fi.def_value(d, name) is None for d in ds):
+            ck.missing(rule, 'single allocation of the distance array `%s` before the sweeps' % name)
+            return
+        # the sweep READS the array (anything but being the base of a subscript store): a running minimum
+        reads = any(isinstance(x, ast.Name) and x.id == name and isinstance(x.ctx, ast.Load) and
+                    not (isinstance(mod.parent.get(x), ast.Subscript) and mod.parent.get(x).value is x and
+                         isinstance(mod.parent.get(x).ctx, ast.Store))
+                    for x in ast.walk(l))
+        for d in ds:
+            e = by_site.setdefault(id(d), [d, [], False])
+            e[1].append(l)
+            e[2] = e[2] or reads
     full = []
     for inf in INF:
         full += ['np.full(_N, %s)' % inf, 'np.full(_N, %s, dtype=_T)' % inf, 'np.full(_N, %s, _T)' % inf,
@@ -374,36 +431,58 @@ def _d1_init(ck, mod, fn, fi, ps, loops):
                  'np.ones(_N) * %s' % inf, '%s * np.ones(_N)' % inf, 'np.zeros(_N) + %s' % inf,
                  '%s + np.zeros(_N)' % inf, 'np.repeat(%s, _N)' % inf, 'np.full_like(_N, %s, dtype=_T)' % inf,
                  'np.ones(_N, dtype=_T) * %s' % inf, '%s * np.ones(_N, dtype=_T)' % inf]
-    if classify(v, full)[0] == 'match':
-        ck.ok(rule, mod, d0, construct, 'running minimum starts at +inf')
-        return
-    alloc = classify(v, ['np.empty(_N)', 'np.empty(_N, dtype=_T)', 'np.empty(_N, _T)', 'np.zeros(_N)',
-                         'np.zeros(_N, dtype=_T)', 'np.ones(_N)', 'np.ones(_N, dtype=_T)', 'np.empty_like(_N)',
-                         'np.empty_like(_N, dtype=_T)', 'np.zeros_like(_N, dtype=_T)', 'np.empty(shape=_N, dtype=_T)'])[0] == 'match'
-    if alloc:
-        # a whole-array fill that dominates every sweep: x.fill(v) / x[:] = v / x[...] = v
-        fills = []
-        for c in calls_in(fn):
-            if isinstance(c.func, ast.Attribute) and c.func.attr == 'fill' and isinstance(c.func.value, ast.Name) \
-                    and c.func.value.id == name and len(c.args) == 1:
-                fills.append((fi.stmt(c), c.args[0]))
-        for s, t in subscript_stores(fn, name):
-            sl = t.slice
-            whole = (isinstance(sl, ast.Slice) and sl.lower is None and sl.upper is None and sl.step is None) or \
-                (isinstance(sl, ast.Constant) and sl.value is Ellipsis)
-            if whole and isinstance(s, ast.Assign):
-                fills.append((s, s.value))
-        fills = [(s, val) for s, val in fills if s is not None and not any(_inside(s, l) for l in loops)
-                 and all(fi.cfg.dominates(s, l) for l in loops) and fi.cfg.dominates(d0, s)]
-        if fills:
-            s, val = fills[-1]
-            ok = xt(fi, val) in [C(i) for i in INF]
-            _three(ck, ok, xp(fi, val), set(ps), rule, mod, s, F, construct,
-                   'running minimum starts at +inf', want + ' (filled with %s)' % u(val))
-            return
-        ck.bad(rule, mod, d0, F, construct, want + ': `%s` is never filled before the first sweep' % u(d0))
-        return
-    ck.decide(classify(v, full, scope=set(ps)), rule, mod, d0, F, construct, 'running minimum starts at +inf', want)
+    allocs = ['np.empty(_N)', 'np.empty(_N, dtype=_T)', 'np.empty(_N, _T)', 'np.zeros(_N)',
+              'np.zeros(_N, dtype=_T)', 'np.ones(_N)', 'np.ones(_N, dtype=_T)', 'np.empty_like(_N)',
+              'np.empty_like(_N, dtype=_T)', 'np.zeros_like(_N, dtype=_T)', 'np.empty(shape=_N, dtype=_T)']
+    for d0, reached, need_inf in sorted(by_site.values(), key=lambda e: getattr(e[0], 'lineno', 0)):
+        raw = fi.def_value(d0, name)
+        # --- private: not (possibly) the very object a call of the caller-supplied metric returned
+        src = _alias_source(fi, raw)
+        if isinstance(src, ast.Call) and isinstance(src.func, ast.Name) and xt(fi, src.func) == metric:
+            ck.bad(rule, mod, d0, F, '%s is a private array' % name,
+                   'the distance array that the sweep updates in place (`%s[...] = ...`) and that is returned must be a '
+                   'freshly allocated array: `%s` is (for a metric returning a float64 ndarray) the very object the '
+                   'caller-supplied metric returned - a reused out= buffer is overwritten by the next metric call '
+                   '(running minimum compared with itself), a view of a precomputed matrix is written into' % (name, u(raw)[:120]))
+            continue
+        v = xp(fi, raw)
+        if classify(v, full)[0] == 'match':
+            ck.ok(rule, mod, d0, construct, 'running minimum starts at +inf')
+            continue
+        if classify(v, allocs)[0] == 'match':
+            if not need_inf:
+                ck.ok(rule, mod, d0, '%s freshly allocated' % name,
+                      'fresh array; the sweep only writes it (one entry per frame), nothing is read before it is written')
+                continue
+            # a whole-array fill that dominates every sweep it reaches: x.fill(v) / x[:] = v / x[...] = v
+            fills = []
+            for c in calls_in(fn):
+                if isinstance(c.func, ast.Attribute) and c.func.attr == 'fill' and isinstance(c.func.value, ast.Name) \
+                        and c.func.value.id == name and len(c.args) == 1:
+                    fills.append((fi.stmt(c), c.args[0]))
+            for s, t in subscript_stores(fn, name):
+                sl = t.slice
+                whole = (isinstance(sl, ast.Slice) and sl.lower is None and sl.upper is None and sl.step is None) or \
+                    (isinstance(sl, ast.Constant) and sl.value is Ellipsis)
+                if whole and isinstance(s, ast.Assign):
+                    fills.append((s, s.value))
+            fills = [(s, val) for s, val in fills if s is not None and not any(_inside(s, l) for l in fors)
+                     and all(cfg.dominates(s, l) for l in reached) and d0 in fi.rd.defs_at(s, name)]
+            if fills:
+                s, val = fills[-1]
+                ok = xt(fi, val) in [C(i) for i in INF]
+                _three(ck, ok, xp(fi, val), set(ps), rule, mod, s, F, construct,
+                       'running minimum starts at +inf', want + ' (filled with %s)' % u(val))
+                continue
+            ck.bad(rule, mod, d0, F, construct, want + ': `%s` is never filled before the first sweep' % u(d0))
+            continue
+        if any(isinstance(c.func, ast.Name) and c.func.id == metric for c in ast.walk(raw) if isinstance(c, ast.Call)):
+            # a private COPY of a metric result (running minimum seeded with the distances to one centre): another algorithm
+            ck.missing(rule, 'the distance array `%s` starts as a copy of a metric result, not at +inf: %s' % (name, u(raw)[:120]))
+        elif need_inf:
+            ck.decide(classify(v, full, scope=set(ps)), rule, mod, d0, F, construct, 'running minimum starts at +inf', want)
+        else:
+            ck.missing(rule, 'allocation of the distance array `%s` not recognised: %s' % (name, u(raw)[:120]))
 
 
 def _namedtuple_fields(mod, cls):
@@ -481,15 +560,30 @@ def d1_predict(ck):
                names, rule, mod, r, F, u(x)[:160],
                'result carries the predicted labels/distances and the fitted centres',
                'predict result fields do not match the values it computed')
+        # the centre indices of the result address frames of X: they are found per label from the
+        # labels/distances pair just computed for X
         ci = kws.get('center_indices')
-        if _is_call_to(ci, 'find_cluster_centers'):
-            b = _bind(ci, params(mod.func('find_cluster_centers')))
-            if b is not None and set(b) == {'assignments', 'distances'}:
-                ok = ct(b['assignments']) in pair[0] and ct(b['distances']) in pair[1]
-                _three(ck, ok, ast.Tuple(elts=[b['assignments'], b['distances']], ctx=ast.Load()), names,
+        if ci is None:
+            ck.missing(rule + '.centers', 'center_indices field of the ClusterResult returned by predict')
+        elif _is_call_to(ci, 'find_cluster_centers'):
+            fps = params(mod.func('find_cluster_centers'))
+            b = _bind(ci, fps)
+            if b is not None and set(b) == set(fps[:2]):
+                ok = ct(b[fps[0]]) in pair[0] and ct(b[fps[1]]) in pair[1]
+                _three(ck, ok, ast.Tuple(elts=[b[fps[0]], b[fps[1]]], ctx=ast.Load()), names,
                        rule + '.centers', mod, r, F, u(ci),
                        'centre indices are found from the same labels/distances pair',
                        'find_cluster_centers must receive (assignments, distances) as returned by assign_to_nearest_center, in that order')
+            else:
+                ck.missing(rule + '.centers', 'arguments of the find_cluster_centers call in predict: %s' % u(ci)[:120])
+        else:
+            # data dependence: a value that is a function of the fitted estimator alone (neither X nor
+            # the predicted pair flows into it) cannot address member frames of X for every X
+            _three(ck, False, ci, {'self'}, rule + '.centers', mod, r, F, 'center_indices=%s' % ct(ci),
+                   '', 'the centre indices of a prediction must be found from the predicted labels/distances '
+                   '(find_cluster_centers(<assignments>, <distances>) of the pair assign_to_nearest_center returned for X): '
+                   '`%s` does not depend on X or on the prediction, so it addresses frames of the FITTED data (stale '
+                   'indices: not members of their label in X, possibly out of range)' % ct(ci))
 
 
 # ---------------------------------------------------------------------------
@@ -695,6 +789,34 @@ def d2_partition(ck):
 # ---------------------------------------------------------------------------
 # D3
 
+def _d3_helper_walk(ck, rule, mod, fn, fi, o, ps):
+    """The walk over the lengths extracted into a per-index helper of the same
+    module: `for <index> in <indices>: ... <h>(<index>, <lengths>) ...` where
+    <h> holds the single loop over its lengths parameter.  Returns (helper,
+    its FuncInfo, lengths loop, index parameter, lengths parameter, call) or
+    None after reporting what is missing."""
+    calls = [c for c in calls_in(o) if isinstance(c.func, ast.Name) and c.func.id in mod.functions
+             and mod.functions[c.func.id] is not fn]
+    if len(calls) != 1:
+        ck.missing(rule, 'nested loops over indices and trajectory lengths')
+        return None
+    call = calls[0]
+    h = mod.functions[call.func.id]
+    b = _bind(call, params(h))
+    if b is None or h.args.vararg or h.args.kwarg or h.decorator_list or \
+            any(isinstance(x, (ast.Yield, ast.YieldFrom)) for x in ast.walk(h)):
+        ck.missing(rule, 'binding of the call %s to the helper %s' % (u(call)[:80], h.name))
+        return None
+    pi = [p for p, a in b.items() if isinstance(a, ast.Name) and a.id == o.target.id and fi.defs_of_use(a) == {o}]
+    pl = [p for p, a in b.items() if xt(fi, a) == ps[1]]
+    hfi = finfo(mod, h)
+    hfors = [l for l in walk_local(h) if isinstance(l, ast.For)]
+    if len(pi) != 1 or len(pl) != 1 or len(hfors) != 1:
+        ck.missing(rule, 'per-index helper %s(<index>, <lengths>) with one loop over the lengths (call: %s)' % (h.name, u(call)[:80]))
+        return None
+    return h, hfi, hfors[0], pi[0], pl[0], call
+
+
 def d3_partition_indices(ck):
     rule = 'C10.D3.partition-indices'
     F = 'partition_indices'
@@ -702,55 +824,98 @@ def d3_partition_indices(ck):
     fn = mod.func(F)
     ck.analysed(mod, fn)
     fi = finfo(mod, fn)
-    cfg = fi.cfg
     ps = params(fn)
     fors = [l for l in walk_local(fn) if isinstance(l, ast.For)]
     nest = [(o, i) for o in fors for i in fors if i is not o and _inside(i, o)]
-    if len(nest) != 1:
+    # W* : the function holding the walk over the lengths; `per` is the region executed once per flat
+    # index (the body of the outer loop, or the whole per-index helper), `head` its entry in the CFG
+    hcall = None
+    if len(nest) == 1:
+        o, inner = nest[0]
+        wfn, wfi, per, head, lens = fn, fi, o, o, ps[1]
+    elif len(fors) == 1:
+        o = fors[0]
+    else:
         ck.missing(rule, 'nested loops over indices and trajectory lengths')
         return
-    o, inner = nest[0]
-    so, si = _loop_shape(fi, o), _loop_shape(fi, inner)
-    if so is None or si is None or so[0] != ps[0] or si[0] != ps[1] or so[1] is not None or \
-            not isinstance(o.target, ast.Name):
+    so = _loop_shape(fi, o)
+    if so is None or so[0] != ps[0] or so[1] is not None or not isinstance(o.target, ast.Name):
+        ck.missing(rule, 'loop `for <index> in %s` (found for %s in %s)' % (ps[0], u(o.target), u(o.iter)))
+        return
+    idx = o.target.id
+    if len(nest) != 1:
+        hw = _d3_helper_walk(ck, rule, mod, fn, fi, o, ps)
+        if hw is None:
+            return
+        from ..cfg import ENTRY
+        wfn, wfi, inner, idx, lens, hcall = hw
+        ck.analysed(mod, wfn)
+        per, head = wfn, ENTRY
+    cfg = wfi.cfg
+    si = _loop_shape(wfi, inner)
+    if si is None or si[0] != lens:
         ck.missing(rule, 'loops `for <index> in %s: for <len> in %s` (found for %s in %s: for %s in %s)' % (
             ps[0], ps[1], u(o.target), u(o.iter), u(inner.target), u(inner.iter)))
         return
-    idx = o.target.id
     t_enum, tl_forms = si[1], si[2]
     tl_names = {n for f in tl_forms for n in names_loaded(ast.parse(f).body[0].value)}
-    ck.ok(rule, mod, o, 'for %s in %s: for %s in %s' % (idx, u(o.iter), u(inner.target), u(inner.iter)),
+    ck.ok(rule, mod, o, 'for %s in %s: for %s in %s' % (o.target.id, u(o.iter), u(inner.target), u(inner.iter)),
           'each flat index is walked through the lengths in order')
-    # --- the emit: <out>.append((<trajectory>, <frame>)) inside the lengths loop
-    apps = [c for c in calls_in(inner) if isinstance(c.func, ast.Attribute) and c.func.attr == 'append'
+    # --- the emit: <out>.append((<trajectory>, <frame>)) inside the lengths loop; with a per-index helper:
+    #     `return (<trajectory>, <frame>)` inside the lengths loop, the caller appends what the helper returned
+    apps = [c for c in calls_in(inner if hcall is None else o) if isinstance(c.func, ast.Attribute) and c.func.attr == 'append'
             and isinstance(c.func.value, ast.Name) and len(c.args) == 1 and not c.keywords]
     if len(apps) != 1:
         ck.missing(rule, 'single <out>.append((trajectory, frame)) inside the lengths loop')
         return
     app = apps[0]
     app_s = fi.stmt(app)
-    pair = app.args[0] if isinstance(app.args[0], ast.Tuple) else xp(fi, app.args[0])
+    if hcall is None:
+        emit_s = app_s
+        pair = app.args[0] if isinstance(app.args[0], ast.Tuple) else xp(fi, app.args[0])
+    else:
+        got = app.args[0]
+        gname = got.id if isinstance(got, ast.Name) else None
+        if isinstance(got, ast.Name):
+            got = fi.resolve(got)
+        if got is not hcall:
+            ck.missing(rule, 'the value appended in the loop over `%s` is not what %s(...) returned: %s' % (ps[0], wfn.name, u(app_s)[:120]))
+            return
+        vals = [r for r in returns_of(wfn) if r.value is not None and const_value(r.value, default=0) is not None]
+        if len(vals) != 1 or not _inside(vals[0], inner):
+            ck.missing(rule, 'single `return (trajectory, frame)` inside the lengths loop of %s' % wfn.name)
+            return
+        emit_s = vals[0]
+        pair = emit_s.value if isinstance(emit_s.value, ast.Tuple) else xp(wfi, emit_s.value)
+        # the helper answers None when the walk runs off the end: the caller must append only a real pair
+        at = _atoms(path_condition(fi, app_s, o))
+        guard_ok = at is not None and len(at) == 1 and at[0].op is ast.IsNot and gname is not None and \
+            u(at[0].lhs) == gname and const_value(at[0].rhs, default=0) is None
+        if not guard_ok:
+            ck.missing(rule, 'the caller must append the pair returned by %s exactly when it is not None: %s' % (
+                wfn.name, ' and '.join(repr(c) for c in (at or [])) or '<unconditional / unrecognised>'))
+            return
     if not (isinstance(pair, ast.Tuple) and len(pair.elts) == 2 and all(isinstance(e, ast.Name) for e in pair.elts)):
         ck.missing(rule, 'appended value is not a (trajectory counter, frame) pair of names: %s' % u(pair)[:120])
         return
     T, cur = pair.elts[0].id, pair.elts[1].id
 
     def is_index(name):
-        """the outer loop variable or a per-index working copy of it"""
+        """the per-index variable or a per-index working copy of it"""
         if name == idx:
             return True
-        cp = [s for s in _updates(o, name) if not _inside(s, inner)]
-        return len(cp) == 1 and isinstance(cp[0], ast.Assign) and fi.def_value(cp[0], name) is not None and \
-            xt(fi, fi.def_value(cp[0], name)) in (idx, 'int(%s)' % idx) and not cfg.reachable(o, inner, avoiding=[cp[0]])
+        cp = [s for s in _updates(per, name) if not _inside(s, inner)]
+        return len(cp) == 1 and isinstance(cp[0], ast.Assign) and wfi.def_value(cp[0], name) is not None and \
+            xt(wfi, wfi.def_value(cp[0], name)) in (idx, 'int(%s)' % idx) and not cfg.reachable(head, inner, avoiding=[cp[0]])
     if not is_index(cur):
         if is_index(T):
-            ck.bad(rule + '.emit', mod, app_s, F, u(app_s),
+            ck.bad(rule + '.emit', mod, emit_s, F, u(emit_s),
                    'the pair must be (trajectory, frame): the (reduced) flat index `%s` is stored as the trajectory component' % T)
             return
         ck.missing(rule, 'frame component `%s` of the appended pair is neither the loop variable `%s` nor a per-index copy of it' % (cur, idx))
         return
     # --- the boundary test: condition under which the pair is emitted
-    at = _atoms(path_condition(fi, app_s, inner))
+    at = _atoms(path_condition(wfi, emit_s, inner))
     if at is None:
         ck.missing(rule + '.boundary', 'condition guarding the append is not a conjunction of comparisons')
         return
@@ -759,28 +924,31 @@ def d3_partition_indices(ck):
     if len(at) == 1:
         c = at[0]
         less = c.as_less()
-        sides = (xt(fi, c.lhs), xt(fi, c.rhs))
-        if less is not None and xt(fi, less[0]) == cur and xt(fi, less[2]) in tl_forms:
+        sides = (xt(wfi, c.lhs), xt(wfi, c.rhs))
+        if less is not None and xt(wfi, less[0]) == cur and xt(wfi, less[2]) in tl_forms:
             emit = c
-            ck.check(less[1], rule + '.boundary', mod, app_s, F, cond,
+            ck.check(less[1], rule + '.boundary', mod, emit_s, F, cond,
                      'frame belongs to this trajectory iff index < traj_len (strict)',
                      'the trajectory owning a flat index is the first with traj_len > index (strict): '
                      'with >= the last frame+1 is attributed to the wrong trajectory / first frame of '
                      'the next trajectory is reported as frame len of the previous one')
         elif set(sides) <= ({cur, T} | tl_forms):
-            ck.bad(rule + '.boundary', mod, app_s, F, cond,
+            ck.bad(rule + '.boundary', mod, emit_s, F, cond,
                    'the pair must be emitted for the first trajectory with %s < traj_len (strict); found the test `%s`' % (cur, cond))
         else:
             ck.missing(rule + '.boundary', 'boundary test not recognised: %s' % cond)
     elif not at:
-        ck.bad(rule + '.boundary', mod, app_s, F, cond,
+        ck.bad(rule + '.boundary', mod, emit_s, F, cond,
                'the pair is appended unconditionally: it must be emitted only for the first trajectory with index < traj_len')
     else:
         ck.missing(rule + '.boundary', 'boundary test not recognised: %s' % cond)
     # emitted once per index: after the append the lengths loop is left
     ret_name = app.func.value.id
-    ck.check(not cfg.reachable(app_s, inner, avoiding=[o]), rule + '.emit', mod, app_s, F,
-             '%s; then leave the lengths loop' % u(app_s),
+    once = isinstance(emit_s, ast.Return) or not cfg.reachable(emit_s, inner, avoiding=[o])
+    if hcall is not None:
+        once = once and not fi.cfg.reachable(app_s, app_s, avoiding=[o])
+    ck.check(once, rule + '.emit', mod, emit_s, F,
+             '%s; then leave the lengths loop' % u(emit_s),
              'emit (trajectory, frame) once and stop', 'must append (trj_index, index) and break: the walk over the '
              'lengths continues after the pair was emitted')
     if _returned_name(fi, fn) != ret_name:
@@ -797,7 +965,7 @@ def d3_partition_indices(ck):
     ekey, epol = canon_atom(emit)
 
     def complementary(s):
-        a = _atoms(path_condition(fi, s, inner, fresh=False))
+        a = _atoms(path_condition(wfi, s, inner, fresh=False))
         if a is None:
             return None
         return len(a) == 1 and canon_atom(a[0]) == (ekey, not epol)
@@ -809,10 +977,10 @@ def d3_partition_indices(ck):
     if len(decs) == 1:
         s = decs[0]
         if isinstance(s, ast.AugAssign):
-            good = isinstance(s.op, ast.Sub) and xt(fi, s.value) in tl_forms
-            val = ast.BinOp(left=ast.Name(id=cur, ctx=ast.Load()), op=s.op, right=xp(fi, s.value))
+            good = isinstance(s.op, ast.Sub) and xt(wfi, s.value) in tl_forms
+            val = ast.BinOp(left=ast.Name(id=cur, ctx=ast.Load()), op=s.op, right=xp(wfi, s.value))
         else:
-            val = xp(fi, fi.def_value(s, cur), stop=(cur,)) if fi.def_value(s, cur) is not None else None
+            val = xp(wfi, wfi.def_value(s, cur), stop=(cur,)) if wfi.def_value(s, cur) is not None else None
             good = val is not None and ct(val) in [C('%s - %s' % (cur, f)) for f in tl_forms]
         comp = complementary(s)
         if good and comp:
@@ -824,7 +992,7 @@ def d3_partition_indices(ck):
     else:
         verdicts.append('bad')      # the running index is never / several times reduced inside the located walk
     if T == t_enum:
-        others = [s for s in _updates(o, T)]
+        others = [s for s in _updates(per, T)]
         verdicts.append('ok' if not others else 'bad')
     else:
         incs = _updates(inner, T)
@@ -832,9 +1000,9 @@ def d3_partition_indices(ck):
             s = incs[0]
             if isinstance(s, ast.AugAssign):
                 good = isinstance(s.op, ast.Add) and const_value(s.value) == 1
-                val = ast.BinOp(left=ast.Name(id=T, ctx=ast.Load()), op=s.op, right=xp(fi, s.value))
+                val = ast.BinOp(left=ast.Name(id=T, ctx=ast.Load()), op=s.op, right=xp(wfi, s.value))
             else:
-                val = xp(fi, fi.def_value(s, T), stop=(T,)) if fi.def_value(s, T) is not None else None
+                val = xp(wfi, wfi.def_value(s, T), stop=(T,)) if wfi.def_value(s, T) is not None else None
                 good = val is not None and ct(val) in (C('%s + 1' % T), C('1 + %s' % T))
             comp = complementary(s)
             if good and comp:
@@ -859,11 +1027,11 @@ def d3_partition_indices(ck):
         ck.ok(rule + '.reset', mod, inner, '%s is the enumerate/range index of the lengths loop' % T,
               'trajectory counter restarts for each index')
     else:
-        resets = [s for s in _updates(o, T) if not _inside(s, inner) and isinstance(s, ast.Assign)
-                  and fi.def_value(s, T) is not None]
-        zero = [s for s in resets if const_value(fi.def_value(s, T)) == 0 and
-                type(const_value(fi.def_value(s, T))) is int and not cfg.reachable(o, inner, avoiding=[s])]
-        ck.check(len(zero) >= 1 and len(zero) == len(resets) and len(_updates(o, T)) == len(resets) + len(_updates(inner, T)),
+        resets = [s for s in _updates(per, T) if not _inside(s, inner) and isinstance(s, ast.Assign)
+                  and wfi.def_value(s, T) is not None]
+        zero = [s for s in resets if const_value(wfi.def_value(s, T)) == 0 and
+                type(const_value(wfi.def_value(s, T))) is int and not cfg.reachable(head, inner, avoiding=[s])]
+        ck.check(len(zero) >= 1 and len(zero) == len(resets) and len(_updates(per, T)) == len(resets) + len(_updates(inner, T)),
                  rule + '.reset', mod, o, F, '%s = 0 per index' % T,
                  'trajectory counter restarts for each index', 'trajectory counter must be reset to 0 for every flat index')
 
@@ -1125,16 +1293,43 @@ def _loop_variable_rebinds(ck):
     recs = [r for r in ea.store_records(RA, 'partition_indices') if p in r.get('params', ())]
     if not recs:
         return {}
+
+    def copies(region, name):
+        out = {name}
+        for s in walk_local(region):
+            if isinstance(s, ast.Assign) and len(s.targets) == 1 and isinstance(s.targets[0], ast.Name) \
+                    and ct(s.value) in (name, 'int(%s)' % name):
+                out.add(s.targets[0].id)
+        return out
+
     names = set()
     for l in walk_local(fn):
         if isinstance(l, ast.For) and isinstance(l.target, ast.Name) and xt(fi, l.iter) == p:
-            names.add(l.target.id)
-            for s in walk_local(l):
-                if isinstance(s, ast.Assign) and len(s.targets) == 1 and isinstance(s.targets[0], ast.Name) \
-                        and ct(s.value) in (l.target.id, 'int(%s)' % l.target.id):
-                    names.add(s.targets[0].id)
-    if all(r.get('kind') == 'augassign-inplace' and isinstance(r.get('node'), ast.AugAssign) and
-           isinstance(r['node'].target, ast.Name) and r['node'].target.id in names for r in recs):
+            names |= copies(l, l.target.id)
+
+    def only_rebinds(qual, par, names, depth=3):
+        """Every store the effects analysis attributes to parameter `par` of `qual` is `name op= v` on a
+        bare name holding one element (one of `names`), or hands such a name to a function of the same
+        module for whose parameter the same holds (the walk extracted into a per-index helper)."""
+        for r in [r for r in ea.store_records(RA, qual) if par in r.get('params', ())]:
+            node = r.get('node')
+            if r.get('kind') == 'augassign-inplace' and isinstance(node, ast.AugAssign) and \
+                    isinstance(node.target, ast.Name) and node.target.id in names:
+                continue
+            if r.get('kind') == 'callee-mutates' and depth > 0 and r.get('target') in names:
+                try:
+                    head, rest = (r.get('via') or '').split(' mutates ', 1)
+                    rel2, qual2 = head.split('::', 1)
+                    p2 = rest.split(' at ', 1)[0]
+                except ValueError:
+                    return False
+                callee = mod.functions.get(qual2)
+                if rel2 == RA and callee is not None and p2 in params(callee) and \
+                        only_rebinds(qual2, p2, copies(callee, p2), depth - 1):
+                    continue
+            return False
+        return True
+    if only_rebinds('partition_indices', p, names):
         return {(RA, 'partition_indices'): {p: 'elements of a flat list of integer indices are immutable ints: `x op= v` '
                                                'on the loop variable over `%s` (or a copy of it) rebinds the name' % p}}
     return {}
